@@ -2,21 +2,22 @@
 C10 widened — U2: torn tails of the legacy files.
 
 PRIMARY.  chunkOldPrimary reads `[u32 size]`, then `size` bytes, and stops — silently, the upgrade goes
-on — at the first read that comes back short.
-  * Tail shorter than a size prefix (1–3 bytes): nothing of it is copied; the upgrading open is EXACTLY
-    the one of the store without the tail (`C10_torn_primary_short`), so every theorem of C10b / C10c
-    applies.  An index entry naming the torn record (its offset is the length of the whole records) is
-    unmappable in the sense of C10c (`LegacyC.badOff`).
-  * Size prefix complete, data short: the 4 bytes of the prefix have already gone to the writer and are
-    flushed with the chunk in progress when that chunk holds a record (`C10_torn_primary_stray`: the
-    numbered files are `chunkFiles c.pfs C.out stray`).  The store then carries 4 bytes that frame nothing
-    at the end of its last primary file; new records are appended AFTER them.  This is known finding D12
-    (torn primary tail never trimmed) entering through the upgrade — which rewrites the file anyway and
-    drops the torn DATA but keeps the PREFIX.  Consequences exhibited below (`C10_D12_via_upgrade`): an
-    index entry naming the torn record is now MAPPABLE (to the stray bytes; it reads as an error and is
-    dropped lazily), and, worse, once that file is no longer the current one primary GC's sequential scan
-    takes the stray prefix for a record, loses the framing of everything behind it and can truncate live
-    records written after the upgrade: acknowledged, flushed Puts are lost after GC + reopen.
+on — at the first read that comes back short.  The repaired code (D31) writes a record's size prefix
+only after its data has been read, so nothing of a torn last record is copied: for EVERY torn tail `t`
+(`C10T.TornP`: fewer than 4 bytes, or a complete size prefix below the deleted bit with less data than it
+announces — i.e. every proper prefix of a well-framed record, `tornP_of_prefix`) the upgrading open is
+EXACTLY the one of the store without the tail (`C10_torn_primary`), so every theorem of C10b / C10c / C10e
+applies.  An index entry naming the torn record carries the offset "length of the whole records", which
+is unmappable in the sense of C10c (`C10_torn_record_offset_bad`: `LegacyC.badOff`) for every torn tail —
+so such entries are the unmappable entries of U1.
+
+Before repair D31 the size prefix was written BEFORE the data was read: with the prefix complete and the
+data short, the 4 bytes of the prefix were kept at the end of the last primary file (whenever that file
+held a record), new records were appended after them, the entry naming the torn record was mappable (to
+the stray bytes), and primary GC's sequential scan misframed everything behind the stray prefix and
+truncated live records written after the upgrade (this was D12 entering through the upgrade; found by
+this development, replayed on the real code, repaired).  `C10_D31_regression` keeps the store and the
+history that exposed it.
 
 INDEX.  chunkOldIndex answers a torn tail with an error, index.Open fails, OpenStore fails
 (`C10_torn_index_refused`) — AFTER mhprimary.Open has converted the primary: numbered primary files and
@@ -36,13 +37,18 @@ namespace Sth
 
 open LegacyC C10T
 
-/-- torn primary, tail shorter than a size prefix: the same upgrade as without the tail -/
-theorem C10_torn_primary_short (c : Cfg) (hc : c.Legal) (C : LegacyC) (hwf : LegacyWFBad c C)
-    (hn : C.recs.length < 1073741824) (t : Bytes) (ht : t.length < 4) (order : List Nat) :
+/-- torn primary: for every torn tail the same upgrade as without the tail -/
+theorem C10_torn_primary (c : Cfg) (hc : c.Legal) (C : LegacyC) (hwf : LegacyWFBad c C)
+    (hn : C.recs.length < 1073741824) (t : Bytes) (ht : TornP t) (order : List Nat) :
     upgradeOpen c { C.dir with data := C.dir.data ++ t } order = upgradeOpen c C.dir order :=
-  upgradeOpen_torn_short c hc C hwf.recSize hwf.freedOK hn t ht order
+  upgradeOpen_torn c hc C hwf.recSize hwf.freedOK hn t ht order
 
-/-- … and an entry naming the torn record is unmappable -/
+/-- every proper prefix of a well-framed record `[u32 size][key][value]` is a torn tail -/
+theorem C10_torn_prefix (k v : Bytes) (hs : k.length + v.length < two31) (j : Nat)
+    (hj : j < 4 + (k.length + v.length)) : TornP ((le32 (k.length + v.length) ++ (k ++ v)).take j) :=
+  tornP_of_prefix k v hs j hj
+
+/-- … and an entry naming the torn record (whatever is left of it) is unmappable -/
 theorem C10_torn_record_offset_bad (C : LegacyC) (hn : C.recs.length < 1073741824)
     (hsz : ∀ kv ∈ C.recs, recSize kv < two31) : C.badOff (legacyPrimary C.recs).length := by
   refine ⟨Nat.le_refl _, ?_⟩
@@ -50,18 +56,6 @@ theorem C10_torn_record_offset_bad (C : LegacyC) (hn : C.recs.length < 107374182
   have h3 : C.recs.length * (two31 + 4) ≤ 1073741824 * (two31 + 4) := Nat.mul_le_mul_right _ (by omega)
   unfold two64 two31 at *
   omega
-
-/-- torn primary, size prefix complete and data short: what mhprimary.Open leaves — the numbered files
-    of the whole records with the torn record's size prefix as stray bytes (`chunkFiles`: appended to the
-    last file when that file holds a record) -/
-theorem C10_torn_primary_stray (c : Cfg) (hc : c.Legal) (C : LegacyC) (hwf : LegacyWFBad c C)
-    (hn : C.recs.length < 1073741824) (sz : Nat) (body : Bytes) (hs : sz < two31) (hb : body.length < sz)
-    (idx : Option Bytes) :
-    ∃ ud pfn plen, openPrimaryU c { data := some (C.dir.data ++ (le32 sz ++ body)), index := idx,
-                                    disk := openFreelist { free := C.dir.free } } = some (ud, c.pfs, pfn, plen) ∧
-      ud.data = none ∧ ud.disk.phdr = some ⟨c.pfs, 0⟩ ∧
-      ud.disk.pfiles = setFiles [] 0 (chunkFiles c.pfs C.out (le32 sz)) :=
-  ⟨_, _, _, openPrimaryU_torn_body c hc C hwf.recSize hwf.freedOK hn sz body hs hb idx, rfl, rfl, rfl⟩
 
 /-- torn index: refused, and refused again on every later open of the directory it leaves -/
 theorem C10_torn_index_refused (c : Cfg) (C : LegacyC) (hwf : LegacyWFBad c C) (t : Bytes) (ht : TornTail t)
@@ -98,7 +92,7 @@ def tornC10 : LegacyC :=
 def tornL10 : LegacyDir := { tornC10.dir with data := tornC10.dir.data ++ (le32 12 ++ [18, 6, 1]) }
 def tornCfg10 : Cfg := { kind := .mh, bits := 8, ifs := 1000, pfs := 60, imm := false }
 
-/-- after the upgrade: four keys are put (the first three fill primary file 0 behind the stray prefix, the
+/-- after the upgrade: four keys are put (the first three fill primary file 0 — before D31 behind a stray prefix —, the
     fourth starts file 1), flushed and read back; then primary GC runs and the store is reopened -/
 def tornOps10 : List SOp :=
   [.put [18, 6, 2, 2, 2, 2, 2, 2] [255, 255, 255, 255, 1], .put [18, 6, 3, 3, 3, 3, 3, 3] [9, 9, 9],
@@ -108,24 +102,26 @@ def tornOps10 : List SOp :=
    .get [18, 6, 1, 2, 3, 4, 5, 6], .get [18, 6, 2, 2, 2, 2, 2, 2], .get [18, 6, 3, 3, 3, 3, 3, 3],
    .get [18, 6, 4, 4, 4, 4, 4, 4], .get [18, 6, 5, 5, 5, 5, 5, 5]]
 
-/-- D12 entering through the upgrade (model evaluation):
-    (1) primary file 0 after the upgrade is the whole record followed by the stray size prefix `[12,0,0,0]`;
-    (2) the entry naming the torn record (legacy offset 13 = length of the whole records) is NOT
-        unmappable: it stays in the index, at offset 13 — the stray bytes;
-    (3) the three keys put and flushed after the upgrade read back, and are ABSENT after primary GC and a
-        reopen: GC took the stray prefix for a 12-byte record, then the value bytes `ff ff ff ff` of the
-        first new record for a deleted record reaching beyond the end of the file, and truncated the file
-        there. -/
-theorem C10_D12_via_upgrade :
+/-- Regression for D31 (model evaluation).  Before the repair, primary file 0 after the upgrade ended in
+    the stray size prefix `[12,0,0,0]`, the entry naming the torn record stayed in the index at the stray
+    bytes, and the three keys put and flushed after the upgrade were ABSENT after primary GC and a reopen.
+    With the repaired code: (1) primary file 0 is the whole record and nothing else; (2) the entry naming
+    the torn record is unmappable and gone from the index (the store is a single chunk: it stays in the
+    list and is refused by the primary; `Get` answers absent) — here: `Get` of a key in its bucket with its
+    prefix answers absent; (3) after the same history every key is found with its value. -/
+theorem C10_D31_regression :
     (upgradeOpen tornCfg10 tornL10 []).map (fun dm => dm.1.pfiles) =
-      some [(0, [9, 0, 0, 0, 18, 6, 1, 2, 3, 4, 5, 6, 7, 12, 0, 0, 0])] ∧
-    (upgradeOpen tornCfg10 tornL10 []).map (fun dm => match idxGet dm.2 dm.1 [1, 9, 9, 9, 9, 9] with
-      | .ok r => some r
-      | .error _ => none) = some (some (some ⟨13, 12⟩)) ∧
+      some [(0, [9, 0, 0, 0, 18, 6, 1, 2, 3, 4, 5, 6, 7])] ∧
+    upgradeOpen tornCfg10 tornL10 [] = upgradeOpen tornCfg10 tornC10.dir [] ∧
+    (upgradeOpen tornCfg10 tornL10 []).map (fun dm => (storeGet dm.2 dm.1 [18, 6, 1, 9, 9, 9, 9, 9]).2 matches .absent) =
+      some true ∧
     (upgradeOpen tornCfg10 tornL10 []).map (fun dm => (runS ⟨tornCfg10, dm.2, dm.1⟩ tornOps10).2) =
       some [.ok, .ok, .ok, .ok, .ok, .found [255, 255, 255, 255, 1], .found [9, 9, 9], .found [8, 8, 8],
-            .gc, .gc, .found [7], .absent, .absent, .absent, .found [6]] := by
-  refine ⟨by decide +kernel, by decide +kernel, by decide +kernel⟩
+            .gc, .gc, .found [7], .found [255, 255, 255, 255, 1], .found [9, 9, 9], .found [8, 8, 8],
+            .found [6]] := by
+  refine ⟨by decide +kernel, ?_, by decide +kernel, by decide +kernel⟩
+  exact upgradeOpen_torn tornCfg10 (by decide) tornC10 (by decide) (by intro l h; cases h) (by decide) _
+    (Or.inr ⟨12, [18, 6, 1], rfl, by decide, by decide⟩) []
 
 /-- torn index, evaluated: the store of Sth/Props/C10b.lean with 5 stray bytes after its index (a size
     prefix announcing 9 bytes and one byte of them) and 30-byte index files: refused; the directory left
